@@ -10,7 +10,7 @@ MONITORS = ['c02']
 
 
 def run(ctx):
-    return pm_prop.run_pm(ctx, ALPHABET, MONITORS)
+    return pm_prop.run_pm(ctx, ALPHABET, MONITORS, listeners=True)
 
 
 def replay(ctx, failure):
